@@ -108,7 +108,9 @@ def run(tier, replay=None):
                 continue
             analysed.append(fn)
             b = prog.bodies[fn]
-            e = pxm.PX(prog)
+            parsers = set(n for n, bb in prog.bodies.items() if bb.get('impl') and bb['impl']['self_ty'] == LI and
+                          ((not bb['impl']['trait'] and n.endswith('::from_bytes')) or ('str::FromStr' in bb['impl']['trait'] and n.endswith('::from_str'))))
+            e = pxm.PX(prog, opaque=parsers)
             segs = e.explore(fn)
             bad = []
             for s in segs:
@@ -117,6 +119,20 @@ def run(tier, replay=None):
                     continue
                 r = s.ret
                 ok = False
+                # form (b): an explicit match on LanguageIdentifier::from_bytes(s.as_bytes()) / from_str(s)
+                pc = [ev for ev in calls_of(s) if ev[1] in parsers]
+                if len(pc) == 1 and terms.access_path(pc[0][2][0]) == (2, ()) and not terms.find_terms(pc[0][2][0], lambda t: t[0] == 'pure' and t[1].split('::')[-1] in ('trim', 'to_lowercase', 'to_uppercase', 'replace', 'to_ascii_lowercase')):
+                    tag = [v for k, v in s.state.facts.items() if k[0] == 'tag' and k[1][0] in ('call', 'pure') and k[1][1] in parsers]
+                    if tag == ['pos'] and r[0] == 'adt' and r[2] == 'Ok' and r[3][0][0] == 'pos' and r[3][0][1][0] in ('call', 'pure') and r[3][0][1][1] in parsers:
+                        ok = True
+                    if tag == ['neg'] and r[0] == 'adt' and r[2] == 'Err' and terms.find_terms(r, lambda t: t[0] in ('call', 'pure') and t[1].endswith('de::Error::custom')) \
+                            and terms.find_terms(r, lambda t: t[0] == 'neg' and t[1][0] in ('call', 'pure') and t[1][1] in parsers):
+                        ok = True
+                    if ok:
+                        others = [ev[1] for ev in calls_of(s) if ev[1] not in parsers and not re.search(r'(::as_bytes|de::Error::custom|Deref>::deref|::as_str|ToString>::to_string|::fmt)$', ev[1])]
+                        if others:
+                            bad.append('unexpected calls %s' % others[:3])
+                        continue
                 if r[0] == 'map_err' or (r[0] == 'pure' and r[1].endswith('map_err')):
                     inner, f = (r[1], r[2]) if r[0] == 'map_err' else (r[2][0], r[2][1])
                     pcall = [ev for ev in calls_of(s) if re.search(r'(str::<impl str>::parse|FromStr>::from_str)$', ev[1])]
